@@ -37,7 +37,7 @@ def case(draw):
     calls = []
     n = draw(st.integers(2, 10))
     for _ in range(n):
-        k = draw(st.integers(0, 7))
+        k = draw(st.integers(0, 9))
         if k == 0:
             c = draw(st.sampled_from([0, 9, 10, 32, 47, 48, 57, 58, 64, 65, 90, 91, 96, 97, 122, 123, 127]))
             calls.append(("char_pred", draw(st.sampled_from(CHAR_FNS)), c))
@@ -55,6 +55,13 @@ def case(draw):
             calls.append(("libc_int", f, draw(st.sampled_from([0, 1, -1, 97, 65, 48, -2147483647, 2147483647, 255]))))
         elif k == 6:
             calls.append(("string_from_char", "string_from_char", draw(st.sampled_from([65, 97, 48, 126, 33]))))
+        elif k in (8, 9):
+            # several string arguments in one request: lengths around the 8 KiB request buffer and its regrowth steps
+            lens = [0, 1, 100, 4000, 8170, 8181, 8200, 16384, 16400, 32768, 65537, 70000]
+            la, lb = draw(st.sampled_from(lens)), draw(st.sampled_from(lens))
+            ca, cb = draw(st.sampled_from("abz")), draw(st.sampled_from("abz"))
+            fn = draw(st.sampled_from(["strcmp", "strncmp", "strspn"]))
+            calls.append(("str2", fn, (la, lb, ca, cb, draw(st.sampled_from([0, 1, 50, 9000, 80000])))))
         else:
             calls.append(("strlen_utf8", "strlen", draw(st.sampled_from(["é", "中文", "aé" * 50, "ü" * 3000]))))
     return {"calls": calls, "exit": draw(st.integers(0, 255))}
@@ -91,6 +98,23 @@ def build(c):
             body.append("(println n%d)" % i)
         elif kind == "string_from_char":
             body.append("(println (string_from_char %d))" % arg)
+        elif kind == "str2":
+            la, lb, ca, cb, nn = arg
+            body.append("let mut n%d: int = 0" % i)
+            if fn == "strncmp":
+                decl.add("extern fn strncmp(a: string, b: string, n: int) -> int")
+                body.append('unsafe { set n%d (strncmp "%s" "%s" %d) }' % (i, ca * la, cb * lb, nn))
+            elif fn == "strcmp":
+                decl.add("extern fn strcmp(a: string, b: string) -> int")
+                body.append('unsafe { set n%d (strcmp "%s" "%s") }' % (i, ca * la, cb * lb))
+            else:
+                decl.add("extern fn strspn(a: string, b: string) -> int")
+                body.append('unsafe { set n%d (strspn "%s" "%s") }' % (i, ca * la, cb * max(lb, 1)))
+            if fn == "strspn":
+                body.append("(println n%d)" % i)
+            else:
+                body.append("(println (< n%d 0))" % i)
+                body.append("(println (== n%d 0))" % i)
     body.append('(println "END")')
     body.append("return %d" % c["exit"])
     return "\n".join(sorted(decl)) + "\nfn main() -> int {\n" + "\n".join("    " + l for l in body) + "\n}\nshadow main { assert true }\n"
